@@ -532,17 +532,37 @@ func (g *gen) writeExprAssociativeOp(b *buffer, n *a.Expr, depth uint32) error {
 
 	signed := isSignedInteger(n.MType())
 
+	// A constant operand is written as a literal like "4294967295u", whose C
+	// type is "unsigned int" (or, without the "u", "int") if the value fits. If
+	// the first two operands of a 64-bit "c0 + c1 + x" are such constants, C
+	// would compute "c0 + c1" modulo (1 << 32) (or overflow an int), even if
+	// the overall sum is in range. Converting the first operand makes every
+	// operation a 64-bit one.
+	castFirst := false
+	if args := n.Args(); (len(args) >= 2) && !widen && n.MType().IsNumType() &&
+		(args[0].AsExpr().ConstValue() != nil) && (args[1].AsExpr().ConstValue() != nil) {
+		if qid := n.MType().QID(); (qid[0] == t.IDBase) && ((qid[1] == t.IDU64) || (qid[1] == t.IDI64)) {
+			castFirst = true
+		}
+	}
+
 	b.writeb('(')
 	for i, o := range n.Args() {
 		if i != 0 {
 			b.writes(opName)
 		} else if widen {
 			b.writes("((uint32_t)(")
+		} else if castFirst {
+			b.writes("((")
+			if err := g.writeCTypeName(b, n.MType(), "", ""); err != nil {
+				return err
+			}
+			b.writes(")(")
 		}
 		if err := g.writeExprOperand(b, o.AsExpr(), signed, depth); err != nil {
 			return err
 		}
-		if (i == 0) && widen {
+		if (i == 0) && (widen || castFirst) {
 			b.writes("))")
 		}
 	}
